@@ -29,7 +29,7 @@ TIER = 'thorough' if '--thorough' in sys.argv else 'quick'
 
 def run_check(prop, wt):
     rc, o = sh(f'timeout 1500 /venv/bin/python -m omstatic {prop} --tier {TIER} --no-write', cwd=VERIF,
-               env=dict(OMSTATIC_REPO=wt, PYTHONPATH=VERIF))
+               env=dict(OMSTATIC_REPO=wt, PYTHONPATH=VERIF, OMSTATIC_SKIP_SELFTEST='1'))
     viol = set()
     for l in o.splitlines():
         m = re.match(r'  violation rule=(\S+) (\S+?):\d+ in (.*?): (.*)', l)
